@@ -7,7 +7,8 @@ import vlib
 
 PID = "C15"
 FILES = ["theories/Properties/C15.v", "theories/Examples/C15Examples.v", "theories/Examples/C15Paging.v",
-         "theories/Examples/C15Wirings.v", "theories/Examples/C15Family.v", "theories/Examples/C15Links.v"]
+         "theories/Examples/C15Wirings.v", "theories/Examples/C15Family.v", "theories/Examples/C15Links.v",
+         "theories/Store/ChildValidation.v", "theories/Examples/C15Validation.v"]
 
 
 def families(sch):
@@ -567,6 +568,75 @@ def dw_oracle(sch, fam, ops, committed, prev, cur):
     return out
 
 
+VAL_STATS = dict(guarded_ops=0, through_child=0, parent_rule_violated_through_parent=0, parent_rule_violated_through_child=0,
+                 of_those_patches=0, child_rule_violated=0, over_long_parent_list_element=0, refused=0)
+ELEM_LIMIT = 32768   # a string-list element is a bbolt key of one type byte + the element; keys end at 32768 bytes
+
+
+def validation_oracle(sch, fam, ops, a, ents, child, fv, prev_view):
+    """guarded creates / updates (op prefix G = the entity strategies of the wiring validate at persist time; the prefix lists
+    the required fields as (store, field)).  -> list of (key, description)"""
+    out = []
+    pchild = prev_view[1]
+    req_all = set()
+    for j, op in enumerate(ops):
+        g = op.get("guard")
+        if g is None or op["kind"] not in ("C", "UP"):
+            continue
+        s0 = op["store"]
+        r = sch.root(s0)
+        if r not in fam:
+            continue
+        req_all |= set(g["req"])
+        i = op["id"]
+        chk = op.get("checker") if op["kind"] == "UP" else None
+        written = lambda f: chk is None or f in chk
+        empty = lambda f: op["fv"].get(f, "N") in ("N", "-")
+        parent_why, child_why = [], []
+        for rs, rf in g["req"]:
+            if rs == r and written(rf) and empty(rf):
+                parent_why.append("required field %s.%s of the parent is %s" % (r, rf, "nil" if op["fv"].get(rf, "N") == "N" else "empty"))
+            elif rs == s0 and rs != r and written(rf) and empty(rf):
+                child_why.append("required field %s.%s is %s" % (rs, rf, "nil" if op["fv"].get(rf, "N") == "N" else "empty"))
+        for sf in sch.stores[r]["sets"]:
+            if written(sf) and any(len(m) // 2 >= ELEM_LIMIT for m in op["sv"].get(sf, []) if m != "-"):
+                parent_why.append("string list %s.%s of the parent holds an element of >= %d bytes (bbolt refuses the key)" % (r, sf, ELEM_LIMIT))
+                VAL_STATS["over_long_parent_list_element"] += 1
+        VAL_STATS["guarded_ops"] += 1
+        VAL_STATS["through_child"] += s0 != r
+        if parent_why:
+            VAL_STATS["parent_rule_violated_through_child" if s0 != r else "parent_rule_violated_through_parent"] += 1
+            VAL_STATS["of_those_patches"] += chk is not None
+        VAL_STATS["child_rule_violated"] += bool(child_why)
+        if j >= len(a["results"]) or a["results"][j] != "ok":
+            VAL_STATS["refused"] += bool(parent_why or child_why) and j < len(a["results"])
+            continue
+        # an update that enters through the parent store is handled by the child store that holds data of the entity
+        routed = [c for c in fam[r] if op["kind"] == "UP" and s0 == r and (r, i, c) in pchild and (r, i, c) in child
+                  and not any(o.get("id") == i for o in ops[:j])]
+        what = "%s of %s through %s store %s%s" % ("Create" if op["kind"] == "C" else ("Update" if chk is None else "patch naming %s" % sorted(chk)),
+                                                    i, "child" if s0 != r else "parent", s0,
+                                                    " (the entity has data of child store %s, whose Update handles it)" % routed[0] if routed else "")
+        if parent_why:
+            now = ["%s=%s" % (rf, fv.get((r, i, rf), "absent")) for rs, rf in g["req"] if rs == r]
+            out.append(("C15:parent-validation-not-applied" + ("-through-child" if (s0 != r or routed) else ""),
+                        "%s reported success although %s - the parent's entity strategy refuses that at persist time, and the same write "
+                        "of a plain parent entity through the parent store is refused (the error raised on the persist context of the parent "
+                        "part did not reach the caller); stored now: %s" % (what, "; ".join(parent_why), now)))
+        elif child_why:
+            out.append(("C15:child-validation-not-applied", "%s reported success although %s" % (what, "; ".join(child_why))))
+    # ... and no stored entity of the family holds an empty / no value in a required field of the parent (every write of it goes
+    # through the validation)
+    if a["commit"]:
+        for rs, rf in sorted(req_all):
+            if rs in fam:
+                bad = [i for i in sorted(ents.get(rs, ())) if fv.get((rs, i, rf), "absent") in ("absent", "nil", "s-")]
+                if bad:
+                    out.append(("C15:stored-shared-field-invalid", "after the committed transaction the required field %s.%s is empty / "
+                                "absent on %s (with child data: %s)" % (rs, rf, bad, [i for i in bad if any((rs, i, c) in child for c in fam[rs])])))
+    return out
+
+
 def oracle(sch, txs, io, mo):
     compare.sch = sch
     out = []
@@ -640,6 +710,13 @@ def oracle(sch, txs, io, mo):
                 out.append(("C15:parent-constraint-not-applied" + ("-through-child" if s0 != r else ""),
                             "Create of %s through %s store %s reported success although %s"
                             % (op["id"], "child" if s0 != r else "parent", s0, "; ".join(why)), k))
+        # ---- the persist-time validation of the PARENT's entity strategy (required strings, string-list elements the storage
+        # refuses: errors raised on the persist context of the parent part) applies identically to a create / update / patch
+        # that enters through a child store: an operation that reports success although a required field of the parent that
+        # it writes is empty / nil, or a written string list of the parent holds an element bbolt cannot store (the rule does
+        # not depend on the state: the same write through the parent store is refused)
+        for key, desc in validation_oracle(sch, fam, ops, a, ents, child, fv, prev_view):
+            out.append((key, desc, k))
         # ---- DeleteWhere through a store of the family deletes exactly what that store's query shows for the filter
         for key, desc in dw_oracle(sch, fam, ops, a["commit"], prev_view, (ents, child, fv, cfv, sets, a["facts"])):
             out.append((key, desc, k))
@@ -837,6 +914,7 @@ def main(argv):
     c.cov["lookups"] = dict(LK_STATS)
     c.cov["cursor_queries"] = dict(QC_STATS)
     c.cov["parent_links"] = dict(LINK_STATS)
+    c.cov["persist_validation"] = dict(VAL_STATS)
     if not proof_ok:
         c.violation(PID + ":proof", "proof obligation no longer checks: %s" % json.dumps(c.proof_broken)[:600],
                     dict(broken=c.proof_broken), no_input=True)
